@@ -59,7 +59,7 @@ Definition l1only (r : req) : prog :=
 
 (* second half of L1L2Orca.Get: every L2 result is reported; a hit is first written to L1
    with the remaining TTL GetE returned (a failing L1 set is compensated by a delete and
-   forgotten). [anyhit] records that `err` was overwritten with nil. *)
+   forgotten). *)
 Fixpoint l1l2_backfill (rs : list gres) (k : prog) : prog :=
   match rs with
   | [] => k
@@ -85,9 +85,8 @@ Definition l1l2_get (items : list gitem) (no : N) (ne : bool) : prog :=
        | [] => l1l2_get_tail no ne e1
        | _ => Call L2 (HGetE (items_of misses)) (fun h2 =>
                 let '(rs2, e2) := match h2 with HVals rs e => (rs, e) | HErr e => ([], Some e) | HDone => ([], Some EIO) end in
-                (* err: the L1 error survives only if no L2 hit overwrote it; an L2 error wins *)
-                let err1 := if existsb (fun g => negb (g_miss g)) rs2 then None else e1 in
-                let err := match e2 with Some e => Some e | None => err1 end in
+                (* err: an L2 error wins, otherwise the L1 error (the back-fill has its own variables) *)
+                let err := match e2 with Some e => Some e | None => e1 end in
                 l1l2_backfill rs2 (l1l2_get_tail no ne err))
        end)).
 
